@@ -228,6 +228,8 @@ class Fn:
     attrs: str = ""
     decreases: str | None = None     # fn-level decreases (recursion)
     label: str | None = None         # obligation name when several extracted functions share a name (trait impls)
+    captures: dict = field(default_factory=dict)   # name -> regex over the ORIGINAL signature+body; `${name}` in sig/clauses/invariants is
+                                                   # replaced by group(1) ("" for an unmatched optional group): names of locals are the code's own
 
 
 @dataclass
@@ -248,6 +250,7 @@ class Enum:
     source: str | None = None
     derive: str = "#[derive(PartialEq, Eq, Clone, Copy)]"
     rewrites: list = field(default_factory=list)   # applied to the variant list (payload types the unit abstracts)
+    generics: str = ""   # generic parameter list to keep on the copied enum (e.g. "<'ast>"); the source's own list is dropped
     eq: bool = False   # payload-free enum: emit `PartialEq` with its structural-equality spec (what #[derive(PartialEq)] means)
 
 
@@ -325,6 +328,28 @@ def extract_fn(repo: Path, unit: VUnit, f: Fn) -> tuple[str, dict]:
         raise LostAnchor(f"fn {f.name}: signature changed: {' '.join(sig_text.split())!r} does not match {f.expect_sig!r}")
     info = {"file": str(f.source or unit.source), "orig_lines": (src.count("\n", 0, start) + 1, src.count("\n", 0, end) + 1),
             "rewrites": []}
+    if f.captures:
+        import copy
+        vals = {}
+        for name, rx in f.captures.items():
+            pres = None
+            if isinstance(rx, tuple):          # (regex, text when group(1) matched, text when it did not)
+                rx, pres, absent = rx
+            m = re.search(rx, sig_text + body, re.S)
+            if not m:
+                raise LostAnchor(f"fn {f.name}: capture {name} /{rx}/ not found")
+            vals[name] = (m.group(1) or "") if pres is None else (pres if m.group(1) else absent)
+        def sub(t):
+            for k, v in vals.items():
+                t = t.replace("${" + k + "}", v)
+            return t
+        f = copy.copy(f)
+        f.sig = sub(f.sig) if f.sig else f.sig
+        f.requires = [sub(x) for x in f.requires]
+        f.ensures = [sub(x) for x in f.ensures]
+        f.loops = {k: {kk: ([sub(x) for x in vv] if isinstance(vv, list) else sub(vv)) for kk, vv in v.items()} for k, v in f.loops.items()}
+        f.inserts = [tuple(sub(x) if isinstance(x, str) and i == 2 else x for i, x in enumerate(ins)) for ins in f.inserts]
+        info["rewrites"].append("captures: " + ", ".join(f"{k}={v!r}" for k, v in vals.items()))
     # ---- loops first (ordinals refer to the ORIGINAL text)
     sites = loop_sites(body)
     edits = []
@@ -417,7 +442,7 @@ def extract_enum(repo: Path, unit: VUnit, e: Enum) -> str:
         body, n = re.subn(rw.pattern, rw.repl, body, count=rw.count, flags=rw.flags)
         if n < rw.min_matches:
             raise LostAnchor(f"enum {e.name}: rewrite {rw.rule} /{rw.pattern}/ matched {n} time(s), expected >= {rw.min_matches}")
-    text = f"{e.derive}\npub enum {e.name} {body}\n"
+    text = f"{e.derive}\npub enum {e.name}{e.generics} {body}\n"
     if e.eq:
         variants = re.findall(r"\b([A-Z]\w*)\s*,", body.strip()[1:-1] + ",")
         if not variants or re.search(r"[({]", body.strip()[1:-1]):
